@@ -31,6 +31,7 @@ RULE = ('cases = (a) an ordered pair of segments constructed through a common po
         'random position with 0-3 crossings (some pairs of crossings 1e-3..1e-6 apart) judged by exact rational root counting, (c) axis-'
         'aligned straight curves, (d) pairs of paths assembled from constructed crossings; distinct by the two specs; non-trivial if an '
         'expectation or an exact count was compared')
+RULE += '; axis-parallel lines through unrotated ellipses; straight curves (evenly spaced collinear control points) crossed by oblique lines'
 ASSUMPTIONS = ['vt/ref/exact.py (Sturm counting); the independent sweep uses 1024-segment polylines of the curves\' own point()',
                'general position for exact counts: simple roots, >= 1e-4 apart, every root and line parameter >= 1e-6 from 0 and 1, crossing '
                'angle sine >= 1e-3; everything else is skipped and counted',
